@@ -319,10 +319,11 @@ func (r *Reader) newBlockReader(nextOff uint64, wantTyp byte) (br *blockReader, 
 
 	if blockTyp == blockTypeLog {
 		// blockSize is the inflated size. Incompressible
-		// data deflates to slightly more than its size
-		// (stored blocks, zlib header and checksum), so
-		// read enough for the worst case.
-		blockSize += blockSize>>12 + blockSize>>14 + blockSize>>25 + 13
+		// data deflates to slightly more than its size: 5
+		// bytes per stored block (Go's writer adds an empty
+		// final one), zlib header and checksum. Read
+		// generously more than any deflater needs.
+		blockSize += blockSize>>10 + 64
 	}
 	if blockSize > guessBlockSize {
 		block, err = r.getBlock(nextOff, blockSize)
